@@ -109,6 +109,42 @@ fn mutate(base: &[u8], rng: &mut Rng) -> Vec<u8> {
     v
 }
 
+/// Long but VALID messages: a comment after the root start tag pads the message so that a multi-byte
+/// UTF-8 character starts just before, on, or straddles byte offset `B` for the sizes at which code
+/// tends to cut text (buffers, log excerpts): a byte-indexed slice of the text panics there.
+fn long_variants(seed: &str, big: bool) -> Vec<Vec<u8>> {
+    let mut out = vec![];
+    let Some(gt) = seed.find('>') else { return out };
+    let head = &seed[..gt + 1];
+    let tail = &seed[gt + 1..];
+    let mut bounds: Vec<usize> = vec![64, 100, 128, 255, 256, 500, 512, 1000, 1024, 2048, 4096];
+    if big {
+        bounds.extend([8192, 10_000, 16_384, 32_768, 65_536]);
+    }
+    for &b in &bounds {
+        let pre = head.len() + 4; // `<!--`
+        if b < pre + 4 {
+            continue;
+        }
+        for ch in ["\u{e9}", "\u{20ac}", "\u{1f600}"] {
+            let w = ch.len();
+            // the character starts at b-w+1 … b-1 (straddling b), and at b (aligned: control)
+            for start in (b + 1 - w)..=b {
+                let pad = start - pre;
+                let mut v = Vec::with_capacity(seed.len() + pad + 16);
+                v.extend_from_slice(head.as_bytes());
+                v.extend_from_slice(b"<!--");
+                v.extend(std::iter::repeat(b'a').take(pad));
+                v.extend_from_slice(ch.as_bytes());
+                v.extend_from_slice(b" -->");
+                v.extend_from_slice(tail.as_bytes());
+                out.push(v);
+            }
+        }
+    }
+    out
+}
+
 fn seeds_reply(kind: &str) -> Vec<String> {
     use reply::Child::*;
     let e = |sev: &'static str| Err { ty: "protocol", tag: "operation-failed", sev, extra: 15 };
@@ -152,6 +188,11 @@ pub fn main(opts: &Opts) {
             let s = rng.pick(&seeds);
             jobs.push((kind.to_string(), mutate(s.as_bytes(), &mut rng)));
         }
+        for (i, s) in seeds.iter().enumerate() {
+            for v in long_variants(s, i == 0) {
+                jobs.push((kind.to_string(), v));
+            }
+        }
     }
     let results = run_pool_watchdog(jobs.clone(), 16, Duration::from_secs(8), "timeout".to_string(), |(kind, bytes)| {
         let r = std::panic::catch_unwind(AssertUnwindSafe(|| {
@@ -185,6 +226,7 @@ pub fn main(opts: &Opts) {
     for _ in 0..n {
         hjobs.push(mutate(hello_seed.as_bytes(), &mut rng));
     }
+    hjobs.extend(long_variants(&hello_seed, true));
     let hres = run_pool_watchdog(hjobs.clone(), 16, Duration::from_secs(8), "timeout".to_string(), |bytes| {
         let r = std::panic::catch_unwind(AssertUnwindSafe(|| {
             let rt = tokio::runtime::Builder::new_current_thread().enable_all().build().unwrap();
